@@ -42,6 +42,13 @@ inductive HAct where
   | hold
   /-- `panic(v)` -/
   | panic (v : Nat)
+  /-- The loop test of `Context.Next` in front of a position of the timed chain
+      (`if err := c.Request.Context().Err(); err != nil { return }`, checks on by default): when the
+      derived context is done, the next `n` acts — everything the positions behind the test would
+      do — are skipped. The timed chain is flattened by the harness: a flat handler `h` followed by
+      the rest `X` is `h ++ [guard |X|] ++ X`, a nesting one `pre; Next(); post` is
+      `pre ++ [guard |X|] ++ X ++ post`. -/
+  | guard (n : Nat)
   deriving Repr, DecidableEq, Inhabited
 
 /-- schedule tokens -/
@@ -133,6 +140,7 @@ def stepH (s : St) : St :=
   | .awaitRet :: r => if s.rpc = .returned then { s with hprog := r } else s
   | .hold :: r => { s with hprog := r }
   | .panic v :: _ => { s with hprog := [], panicChan := some v, hDone := true, hGo := true }
+  | .guard n :: r => { s with hprog := if s.ctx = .live then r else r.drop n }
 
 /-- `waitH`: the configured timeout handler waits for the handler's signal before it writes
     (`timeout.WithHandler`); `preferDone`: which ready `select` case Go picks -/
@@ -177,5 +185,17 @@ def fair (waitH : Bool) (hFirst : Bool) : Nat → St → St
     else
       let b := if hFirst then stepR waitH true s else stepH s
       if b != s then fair waitH hFirst n b else s
+
+/-- `fair` for cases that run under a real (small) budget: when neither thread can move and the
+    context is still live, time passes until the middleware's own timer fires (`dl`) -/
+def fairT (waitH : Bool) (hFirst : Bool) : Nat → St → St
+  | 0, s => s
+  | n+1, s =>
+    let a := if hFirst then stepH s else stepR waitH true s
+    if a != s then fairT waitH hFirst n a
+    else
+      let b := if hFirst then stepR waitH true s else stepH s
+      if b != s then fairT waitH hFirst n b
+      else if s.ctx = .live then fairT waitH hFirst n (step waitH s .dl) else s
 
 end Rivaas.Timeout
